@@ -12,6 +12,10 @@ import (
 // Config bounds the workspace generator.
 type Config struct {
 	MaxFiles     int
+	MinFiles     int
+	ImportPct    int // probability (percent) of an import edge i -> j for j < i (default 55)
+	PublicPct    int // probability (percent) that an import is public (default 25)
+	MsgRefPct    int // extra weight for message/enum typed fields (0 = default mix)
 	Syntaxes     []string
 	NoOptions    bool
 	NoExtensions bool
@@ -55,15 +59,15 @@ type builder struct {
 	ctx      map[string]*fileCtx
 }
 
-func (b *builder) pct(n int, label string) bool { return rapid.IntRange(0, 99).Draw(b.t, label) < n }
+func (b *builder) pct(n int, label string) bool { return Pct(b.t, n, label) }
 
-func pick[T any](b *builder, xs []T, label string) T { return rapid.SampledFrom(xs).Draw(b.t, label) }
+func pick[T any](b *builder, xs []T, label string) T { return Pick(b.t, xs, label) }
 
 var (
-	pkgPool   = []string{"", "a", "a.b", "a.b.c", "a.c", "b", "b.a"}
-	msgPool   = []string{"A", "B", "C", "D", "M", "N"}
+	pkgPool   = []string{"", "a", "a.b", "a.b.c", "a.c", "b", "b.a", "a.bc.d", "a.bc", "bc"}
+	msgPool   = []string{"A", "B", "C", "D", "M", "N", "S", "E"}
 	enumPool  = []string{"E", "F", "G"}
-	fieldPool = []string{"x", "y", "z", "v", "w", "my_field", "f2", "Foo", "foo_bar_baz", "a1_b", "u", "q", "A", "B", "E"}
+	fieldPool = []string{"x", "y", "z", "v", "w", "my_field", "f2", "Foo", "foo_bar_baz", "a1_b", "u", "q", "A", "B", "E", "_x", "_y", "fooBarBaz", "myField"}
 	svcPool   = []string{"S", "T"}
 )
 
@@ -77,12 +81,36 @@ func GenWorkspace(t *rapid.T, cfg Config) *Workspace {
 	}
 	b := &builder{t: t, cfg: cfg, ws: &Workspace{}, pkgNames: map[string]map[string]bool{}, types: map[string]*typeInfo{},
 		extNext: map[string]int{}, ctx: map[string]*fileCtx{}}
-	n := rapid.IntRange(1, cfg.MaxFiles).Draw(t, "nfiles")
+	if cfg.MinFiles == 0 {
+		cfg.MinFiles = 1
+	}
+	if cfg.ImportPct == 0 {
+		cfg.ImportPct = 55
+	}
+	if cfg.PublicPct == 0 {
+		cfg.PublicPct = 25
+	}
+	b.cfg = cfg
+	n := rapid.IntRange(cfg.MinFiles, cfg.MaxFiles).Draw(t, "nfiles")
 	pkg0 := pick(b, pkgPool, "pkg0")
 	for i := 0; i < n; i++ {
 		b.file(i, pkg0)
 	}
 	return b.ws
+}
+
+// reserveName marks a name as used in a scope; false if it was already taken.
+func (b *builder) reserveName(scopeKey, name string) bool {
+	used := b.pkgNames[scopeKey]
+	if used == nil {
+		used = map[string]bool{}
+		b.pkgNames[scopeKey] = used
+	}
+	if used[name] {
+		return false
+	}
+	used[name] = true
+	return true
 }
 
 func (b *builder) takeName(scopeKey string, pool []string, label string) (string, bool) {
@@ -118,8 +146,8 @@ func (b *builder) file(i int, pkg0 string) {
 	b.ctx[f.Name] = ctx
 	if !b.cfg.NoImports {
 		for j := 0; j < i; j++ {
-			if b.pct(55, "imp") {
-				f.Imports = append(f.Imports, Import{Path: b.ws.Files[j].Name, Public: b.pct(25, "pub")})
+			if b.pct(b.cfg.ImportPct, "imp") {
+				f.Imports = append(f.Imports, Import{Path: b.ws.Files[j].Name, Public: b.pct(b.cfg.PublicPct, "pub")})
 			}
 		}
 	}
@@ -344,7 +372,7 @@ func (b *builder) fields(f *File, m *Message) {
 	ctx := b.ctx[f.Name]
 	nf := rapid.IntRange(0, 5).Draw(t, "nfields")
 	num := 1
-	names := map[string]bool{}
+	names, jsonNames := map[string]bool{}, map[string]bool{}
 	// field names share the message scope with nested types, enums and enum values
 	for n := range b.pkgNames["msg:"+m.FQN] {
 		names[n] = true
@@ -357,7 +385,8 @@ func (b *builder) fields(f *File, m *Message) {
 	freeName := func() (string, bool) {
 		var free []string
 		for _, n := range fieldPool {
-			if !names[n] {
+			// two fields with the same default JSON name are accepted (with a warning) only in proto2
+			if !names[n] && (f.Syntax == Proto2 || !jsonNames[JSONName(n)]) {
 				free = append(free, n)
 			}
 		}
@@ -366,6 +395,7 @@ func (b *builder) fields(f *File, m *Message) {
 		}
 		n := pick(b, free, "fname")
 		names[n] = true
+		jsonNames[JSONName(n)] = true
 		return n, true
 	}
 	nextNum := func() int {
@@ -434,7 +464,10 @@ func (b *builder) fieldType(f *File, m *Message, fl *Field, ctx *fileCtx, isExt 
 		scope = f.Package
 	}
 	inOneof := fl.Oneof >= 0
-	kind := rapid.IntRange(0, 99).Draw(t, "kind")
+	kind := Uniform(t, 100, "kind")
+	if b.cfg.MsgRefPct > 0 && b.pct(b.cfg.MsgRefPct, "forceref") {
+		kind = 50 + Uniform(t, 28, "refkind")
+	}
 	msgs := b.visibleTypes(f, false)
 	enums := b.visibleTypes(f, true)
 	if f.Syntax == Proto3 {
@@ -456,10 +489,12 @@ func (b *builder) fieldType(f *File, m *Message, fl *Field, ctx *fileCtx, isExt 
 	case kind < 78:
 		ti := pick(b, enums, "enumtype")
 		fl.Type, fl.TypeFQN = "enum", ti.FQN
-	case kind < 88 && !inOneof && !isExt && !b.cfg.NoMaps:
+	case kind < 88 && !inOneof && !isExt && !b.cfg.NoMaps && b.reserveName("msg:"+scope, MapEntryName(fl.Name)):
+		// (the synthesized entry message needs a free name: map fields y and _y, or my_field and myField,
+		// would both synthesize the same entry message)
 		fl.Type = "map"
 		fl.MapKey = pick(b, mapKeys, "mapkey")
-		vk := rapid.IntRange(0, 9).Draw(t, "mapvalkind")
+		vk := Uniform(t, 10, "mapvalkind")
 		switch {
 		case vk < 2 && len(msgs) > 0:
 			fl.MapVal, fl.TypeFQN = "message", pick(b, msgs, "mapmsg").FQN
@@ -517,7 +552,7 @@ func (b *builder) fieldType(f *File, m *Message, fl *Field, ctx *fileCtx, isExt 
 		implicit = ctx.implicit && !repeated && !inOneof && !isExt && fl.Type != "message" && fl.Type != "map"
 	}
 	if f.Syntax == Ed2023 && !b.cfg.NoFeatures && !repeated && !inOneof && !isExt && fl.Type != "map" && fl.Type != "message" {
-		switch rapid.IntRange(0, 9).Draw(t, "presfeat") {
+		switch Uniform(t, 10, "presfeat") {
 		case 0:
 			implicit = false
 			fl.Features = append(fl.Features, Opt{Name: "features.field_presence", Value: "EXPLICIT", Set: func(o any) { featureSet(o).FieldPresence = descriptorpb.FeatureSet_EXPLICIT.Enum() }})
